@@ -624,6 +624,7 @@ fn c07_shard(ctx: &Ctx, out: &mut ShardOut) {
     C07C.run(ctx, &pool, 9, ctx.share(ctx.by_tier(96, 400)) as u32, &pb, out);
     C07D.run(ctx, &pool, 10, ctx.share(ctx.by_tier(64, 300)) as u32, &pb, out);
     C07T.run(ctx, &pool, 14, ctx.share(ctx.by_tier(48, 300)) as u32, &pb, out);
+    super::concchecks::set_run(ctx, &pool, out, "iter-set", true, 400, 6_000);
     let db = match ctx.tier {
         Tier::Quick => Budget { single: 30, double: 0, coarse2: 260, tapes: 2, tape_seed: ctx.shard_seed(88), triple: 0 },
         Tier::Thorough => Budget { single: 300, double: 300, coarse2: 3000, tapes: 20, tape_seed: ctx.shard_seed(88), triple: 0 },
@@ -645,6 +646,7 @@ fn c07_replay(sub: &str, case: &Value) -> Result<(), CaseFail> {
         "iter-probe" => C07C.replay(&Pool::new(), case, &pb),
         "iter-probe-resize" => C07D.replay(&Pool::new(), case, &pb),
         "iter-probe-treemove" => C07T.replay(&Pool::new(), case, &pb),
+        "iter-set" => super::concchecks::c01_set_replay(&Pool::new(), case),
         "iter-probe-drain" => C07E.replay(&Pool::new(), case, &Budget { single: 300, double: 300, coarse2: 3000, tapes: 20, tape_seed: 1, triple: 0 }),
         "iter-drain" => C07F.replay(&Pool::new(), case, &b),
         "iter-long" => C07L.replay(&Pool::new(), case, &Budget { single: 0, double: 0, coarse2: 0, tapes: 100, tape_seed: 1, triple: 0 }),
